@@ -1705,6 +1705,7 @@ mod worlds {
         let passes: u128 = if case.excluded.is_some() { 1 } else { 3 };
         let mut mk_mult: std::collections::HashMap<u128, u32> = std::collections::HashMap::new();
         let mut per_bk: Vec<u128> = vec![0; 256];
+        let mut left_out = [0u64; 3];
         for i in 0..len {
             let field = |f: usize| -> [(u128, u128); 3] {
                 std::array::from_fn(|h| match f {
@@ -1744,6 +1745,13 @@ mod worlds {
                     return;
                 }
             }
+            // which helper was left out of the pass that produced this row (its shares are all zero)
+            for h in 0..3 {
+                let z = outs[h][i];
+                if z.0.unwrap_or((0, 0)) == (0, 0) && z.1 == (0, 0) && z.2 == (0, 0) {
+                    left_out[h] += 1;
+                }
+            }
             if case.kind == "oprf" {
                 *mk_mult.entry(mk).or_insert(0) += 1;
             } else {
@@ -1775,6 +1783,17 @@ mod worlds {
                 return;
             }
             rec.add("dummy_breakdown_counts_in_range", case.buckets as u64);
+        }
+        // three passes, each generated by two helpers and unknown to the third: with the truncation points used here
+        // (n >= 3, several draws per pass) an empty pass has probability below delta^2, so every helper must be the
+        // left-out one of some dummy row; with a single pass only the excluded helper is
+        if case.excluded.is_none() && len - plain.len() >= 30 {
+            if let Some(h) = (0..3).find(|h| left_out[*h] == 0) {
+                rec.violation("a helper knows every dummy row: no padding pass was generated without it", sig_base("dummy_rows", "helper_never_left_out"),
+                              json!({"desc": desc, "case": idx, "helper": h, "dummy_rows_unknown_to_each_helper": left_out, "dummy_rows": len - plain.len()}));
+                return;
+            }
+            rec.count("three_pass_cases_every_helper_left_out_once");
         }
         rec.add("dummy_rows_seen", (len - plain.len()) as u64);
         rec.distinct(&("pad", case.kind, case.eps.to_bits(), case.delta.to_bits(), case.sens, case.cap, case.buckets, case.excluded.map(|r| r as usize), case.malicious, case.real_rows));
